@@ -262,3 +262,38 @@ func MeanGood(samples []model3d.Coord3D, max, k int) (model3d.Coord3D, model3d.C
 	}
 	return sum.Scale(1 / float64(n)), sum2.Scale(1 / float64(k))
 }
+
+// clean:A3.CNT clean:A3.GUARD a local reporter closure counts as one report per call.
+func ReporterClosure(r *model3d.Ray, f func(model3d.RayCollision)) int {
+	report := func(t float64) {
+		if f != nil {
+			f(model3d.RayCollision{Scale: t})
+		}
+	}
+	n := 0
+	for i := 0; i < 3; i++ {
+		if r.Direction.X > float64(i) {
+			report(float64(i))
+			n++
+		}
+	}
+	return n
+}
+
+// want:A3.CNT one report through the local closure is not counted.
+func ReporterClosureBad(r *model3d.Ray, f func(model3d.RayCollision)) int {
+	report := func(t float64) {
+		if f != nil {
+			f(model3d.RayCollision{Scale: t})
+		}
+	}
+	n := 0
+	for i := 0; i < 3; i++ {
+		if r.Direction.X > float64(i) {
+			report(float64(i))
+			n++
+		}
+	}
+	report(0)
+	return n
+}
